@@ -296,7 +296,7 @@ def check_roundtrip(case):
         stored = built.entries[built.default if key is None else key]
         if cont == "raw":
             # no stored dtype: the caller names it (None means float64)
-            rd = None if (stored.dtype == np.float64 and case.get("raw_default")) else stored.dtype.name
+            rd = None if (stored.dtype == np.float64 and case.get("raw_default")) else (stored.dtype.name if stored.dtype.isnative else stored.dtype.str)
             exp = stored
         else:
             rd = dtype
@@ -679,6 +679,17 @@ def _container_case(draw, containers=CONTAINERS, allow_cast=True, allow_key=True
         ]
         if allow_key and draw(st.booleans()):
             case["key"] = draw(st.sampled_from(names))
+    if cont in ("npy", "npz", "npzc", "hdf5", "raw") and draw(st.sampled_from([False, False, False, True])):
+        # arrays stored in the non-native byte order (files written on another architecture)
+        for a in case["arrays"]:
+            dt = np.dtype(a["dtype"])
+            if dt.itemsize > 1 and dt.byteorder in "=<|":
+                a["dtype"] = dt.newbyteorder(">").str
+        case["swapped"] = True
+    if cont == "hdf5" and case.get("swapped"):
+        # HDF5 converts on read with its own routines; for byte-swapped half floats they differ from a numpy
+        # cast on a few values (library behaviour, not the reader's): such files are read without a cast
+        allow_cast = False
     if allow_cast and cont != "raw" and draw(st.sampled_from([False, True, True])):
         if cont == "sph" and not case["arrays"][0]["coding"].startswith("pcm"):
             # expanded G.711 spans +-32124 (and a 1-byte dtype means raw codes, which is C12's subject)
